@@ -81,6 +81,13 @@ pub struct FaultPlan {
     pub crash_after: Option<(String, String)>,
     #[serde(default, skip_serializing_if = "is_zero_u32")]
     pub crash_after_ops: u32,
+    /// With `crash_on` on a write: the file is created (zero-length) before the kill.
+    #[serde(default, skip_serializing_if = "is_false")]
+    pub crash_on_empty: bool,
+}
+
+fn is_false(b: &bool) -> bool {
+    !*b
 }
 
 fn is_zero_u32(n: &u32) -> bool {
@@ -392,9 +399,12 @@ pub struct SimCore {
     pub log: Mutex<Vec<OpRecord>>,
     pub sched: Sched,
     /// Storage operations allowed per call before the call is declared hung.
-    pub op_budget: u32,
+    pub op_budget: AtomicU32,
     /// Simulated wall clock at operation 0 (seconds since the epoch).
     pub clock_base: std::sync::atomic::AtomicI64,
+    /// Storage operations per simulated second (1: every operation is a new second; large:
+    /// everything a run does happens within one second).
+    pub clock_div: std::sync::atomic::AtomicI64,
 }
 
 /// Order-independent digest of every operation log of this process (XOR of per-world log
@@ -442,8 +452,9 @@ impl SimCore {
             store: Mutex::new(store),
             log: Mutex::new(Vec::new()),
             sched: Sched::default(),
-            op_budget: 200_000,
+            op_budget: AtomicU32::new(200_000),
             clock_base: std::sync::atomic::AtomicI64::new(SIM_EPOCH),
+            clock_div: std::sync::atomic::AtomicI64::new(1),
         })
     }
     pub fn snapshot(&self) -> MemStore {
@@ -498,30 +509,6 @@ enum Step {
 
 pub const SIM_EPOCH: i64 = 1_700_000_000;
 
-fn simulated_clock_rewrite(op: &Op, base: i64, seq: u64) -> Option<Op> {
-    let Op::Write { path, content, mode } = op else { return None };
-    let key = if path.ends_with("BANDHEAD") {
-        "start_time"
-    } else if path.ends_with("BANDTAIL") {
-        "end_time"
-    } else {
-        return None;
-    };
-    let mut v: serde_json::Value = serde_json::from_slice(content).ok()?;
-    let obj = v.as_object_mut()?;
-    if !obj.contains_key(key) {
-        return None;
-    }
-    obj.insert(key.to_string(), serde_json::json!(base + seq as i64));
-    let mut bytes = serde_json::to_vec(&v).ok()?;
-    bytes.push(b'\n');
-    Some(Op::Write {
-        path: path.clone(),
-        content: Bytes::from(bytes),
-        mode: *mode,
-    })
-}
-
 impl Interceptor {
     fn decide(&self, idx: u32) -> (Option<Fault>, u8) {
         // The decision depends only on (plan, idx), never on timing.
@@ -569,19 +556,6 @@ impl Interceptor {
     fn perform(&self, op: &Op, idx: u32, fault: Option<Fault>, delayed: u8) -> Step {
         let mut store = self.core.store.lock().unwrap();
         let mut log = self.core.log.lock().unwrap();
-        // The clock seam: the only wall-clock values Conserve ever stores are start_time in
-        // BANDHEAD and end_time in BANDTAIL. They are replaced here, on their way to the store,
-        // by simulated time (a function of the global operation sequence number), so that the
-        // stored bytes - and everything that later depends on them, such as which byte a
-        // seeded bit flip hits - are a function of the scenario alone.
-        let rewritten;
-        let op = match simulated_clock_rewrite(op, self.core.clock_base.load(SeqCst), log.len() as u64) {
-            Some(o) => {
-                rewritten = o;
-                &rewritten
-            }
-            None => op,
-        };
         let (len, content_hash) = match op {
             Op::Write { content, .. } => (content.len(), rng::hash_bytes(content)),
             _ => (0, 0),
@@ -637,12 +611,23 @@ impl Interceptor {
 
 #[async_trait]
 impl Backend for Interceptor {
+    /// The clock seam (hook H3): the only wall-clock values Conserve ever records are
+    /// start_time in BANDHEAD and end_time in BANDTAIL, and it asks its backend for them.
+    /// Simulated time is a function of the world's operation count (one tick every
+    /// `clock_div` storage operations), so stored bytes - and everything that later depends
+    /// on them, such as which byte a seeded bit flip hits - are a function of the scenario.
+    fn now_second(&self) -> Option<i64> {
+        let seq = self.core.log.lock().unwrap().len() as i64;
+        let div = self.core.clock_div.load(SeqCst).max(1);
+        Some(self.core.clock_base.load(SeqCst) + seq / div)
+    }
+
     async fn call(&self, op: Op) -> Result<Reply, TErr> {
         if *self.dead.lock().unwrap() != Dead::Alive {
             return std::future::pending().await;
         }
         let idx = self.count.fetch_add(1, SeqCst);
-        if idx >= self.core.op_budget {
+        if idx >= self.core.op_budget.load(SeqCst) {
             self.die(Dead::Hung);
             return std::future::pending().await;
         }
@@ -657,7 +642,7 @@ impl Backend for Interceptor {
                 if store::op_verb(&op) == verb && hit {
                     let seen = self.crash_on_seen.fetch_add(1, SeqCst);
                     if seen == self.plan.crash_on_skip {
-                        fault = Some(Fault::CrashBefore);
+                        fault = Some(if self.plan.crash_on_empty && verb == "write" { Fault::CrashEmpty } else { Fault::CrashBefore });
                     }
                 }
             }
